@@ -246,7 +246,11 @@ def eval_constants(path):
     ns = {}
     with open(path) as f:
         src = f.read()
-    exec(compile(src, path, 'exec'), {'__builtins__': {'int': int, 'pow': pow, 'max': max, 'min': min}}, ns)
+    try:
+        exec(compile(src, path, 'exec'), {'__builtins__': {'int': int, 'pow': pow, 'max': max, 'min': min}}, ns)
+    except Exception:
+        ns = {}
+        exec(compile(src, path, 'exec'), {}, ns)   # full builtins (e.g. sum/range in a derived constant)
     return {k: v for k, v in ns.items() if k.isupper()}
 
 
